@@ -180,6 +180,14 @@ def units(tier):
             continue
         a = esh.prog_of(("if", pred, ("ret", (("T", "1"),)), None))
         out.append(("case", "noelse:" + tag.split(":")[0], a, [dict(e, u="id7") for e in envs]))
+    # every named literal content in salt / label / operand / tuple member position, and inside a trailing line comment
+    from ..enum import lits
+
+    for v in lits.NAMED:
+        if "\n" in v or ('"' in v and "'" in v) or any(0xD800 <= ord(c) <= 0xDFFF for c in v):
+            continue
+        a = ("prog", "exp", v, ("uid",), ("if", ("cmp", ("id", "f"), "in", ("tup", (("lit", v), ("lit", 1)))), ("ret", ((v, "1"), ("B", "1"))), ("else", ("ret", (("Z", "1"),)))))
+        out.append(("case", "literal", a, [{"uid": i, "f": f} for i in range(2) for f in (v, 1, v + "x")]))
     out += [("ws", sep) for sep in ("\t", "\n", "\r\n", "\r", "\x0c", "\x0b", " \t ", "\n\n", " \r\n\t", "\x0c\n", " \x0b ", "\r\r\n", "  ")]
     B = eb.all_bases()
     for nme in (eb.SMALL if tier == "quick" else sorted(B)):
